@@ -732,6 +732,33 @@ func encryptHonouredRule(c *Ctx, r *Report, an *Anchors, rule string) {
 			"encrypt mode is switched on whenever --encrypt is given with a key-file path, independently of the input channel",
 			fmt.Sprintf("the encrypt-mode switch additionally depends on %v: under that condition --encrypt is accepted and silently ignored", extra))
 	}
+	// --encrypt without a key location is refused, not silently served in placeholder mode
+	{
+		rejected := false
+		for _, b := range cl.Blocks {
+			encTrue, keyEmpty := false, false
+			for _, f := range allFacts(b) {
+				if name, ok := an.flagOfValue(cl, f.Cond); ok && name == "encrypt" && f.Pol {
+					encTrue = true
+				}
+				if bo, ok := f.Cond.(*ssa.BinOp); ok && (bo.Op == token.EQL || bo.Op == token.NEQ) {
+					for _, pair := range [][2]ssa.Value{{bo.X, bo.Y}, {bo.Y, bo.X}} {
+						if isEmptyStringConst(pair[1]) {
+							if name, ok := an.flagOfValue(cl, pair[0]); ok && name == "encryptionKeyFile" && (bo.Op == token.EQL) == f.Pol {
+								keyEmpty = true
+							}
+						}
+					}
+				}
+			}
+			if encTrue && keyEmpty && len(failsLoudly(b, false, nil)) == 0 {
+				rejected = true
+			}
+		}
+		r.Check(rejected, rule, cl.Name()+":encrypt-without-key-path-refused", c.Pos(cl.Pos()),
+			"--encrypt with an empty key-file path ends in a non-zero exit: encryption is never silently replaced by irreversible placeholders",
+			"--encrypt with an empty --encryptionKeyFile is accepted and runs in placeholder mode: the user asked for reversible output and gets output nothing can decrypt, with exit status 0")
+	}
 	streamCallers := map[string]bool{}
 	if an.StreamFn != nil {
 		for _, call := range c.callersOf(an.StreamFn) {
